@@ -12,9 +12,9 @@ clean=$(mktemp -d /tmp/w2c2seed-clean-XXXXXX); mut=$(mktemp -d /tmp/w2c2seed-mut
 trap 'rm -rf "$clean" "$mut"' EXIT
 rsync -a --exclude _build --exclude .git --exclude SEED /repo/ "$clean/"; rsync -a --exclude _build --exclude .git --exclude SEED /repo/ "$mut/"
 ( cd "$mut" && patch -s -p1 < "$S/patch.diff" ) || { echo "SEED $name: patch does not apply"; exit 2; }
-W2C2_REPO="$mut" ./baseline_off.sh > /tmp/seed_base.log 2>&1; base=$?
-( bash "$S/demo.sh" "$mut" > /tmp/seed_demo_mut.log 2>&1 ); dm=$?
-( bash "$S/demo.sh" "$clean" > /tmp/seed_demo_clean.log 2>&1 ); dc=$?
+W2C2_REPO="$mut" ./baseline_off.sh > /tmp/seed_base.$name.log 2>&1; base=$?
+( bash "$S/demo.sh" "$mut" > /tmp/seed_demo_mut.$name.log 2>&1 ); dm=$?
+( bash "$S/demo.sh" "$clean" > /tmp/seed_demo_clean.$name.log 2>&1 ); dc=$?
 echo "SEED $name: tests-with-patch rc=$base demo-with-patch rc=$dm demo-clean rc=$dc"
 caught=""
 for p in $props; do
@@ -38,5 +38,5 @@ json.dump(meta, open(os.path.join(d, 'meta.json'), 'w'), indent=1)
 PY
   echo "SEED $name: KEPT caught_by:$caught"
 else
-  echo "SEED $name: REJECTED (conditions not met)"; tail -5 /tmp/seed_demo_mut.log /tmp/seed_demo_clean.log /tmp/seed_base.log
+  echo "SEED $name: REJECTED (conditions not met)"; tail -5 /tmp/seed_demo_mut.$name.log /tmp/seed_demo_clean.$name.log /tmp/seed_base.$name.log
 fi
